@@ -18,6 +18,7 @@ Definition ex_trips : list trip :=
     {| t_id := 101%nat; t_path := 11%nat; t_service := 8%nat; t_times := [ex_st 5 6; ex_st 9 9] |};
     {| t_id := 102%nat; t_path := 10%nat; t_service := 7%nat; t_times := [ex_st 100 110; ex_st 120 130; ex_st 140 150] |} ].
 Definition ex_row (n : nat) (w : Z) : fprow := {| fp_node := n; fp_time := w; fp_dist := w * 2 |}.
+Definition ex_row' (n : nat) (w dd : Z) : fprow := {| fp_node := n; fp_time := w; fp_dist := dd |}.
 Definition ex_fp (n : nat) : list fprow :=
   match n with
   | 1%nat => [ex_row 1 0; ex_row 2 60]
@@ -641,9 +642,100 @@ Proof.
     destruct (fm_node m) as [n|] eqn:Hn; [|discriminate Hrows].
     destruct (node_rows known r) as [rows0|] eqn:Hr; [|discriminate Hrows].
     injection Hrows as Hrows. subst rows.
-    destruct (memb n known) eqn:Hmem.
-    + constructor; [cbn [fp_node]; exact Hmem | apply IHl; reflexivity].
-    + apply IHl; reflexivity.
+    destruct (memb n known) eqn:Hmem; [|apply IHl; reflexivity].
+    destruct (0 <=? fm_time m); cbn [andb]; [|apply IHl; reflexivity].
+    constructor; [cbn [fp_node]; exact Hmem | apply IHl; reflexivity].
+Qed.
+
+Lemma assoc_in : forall (A : Type) n (m : list (nat * A)) v, assoc n m = Some v -> exists k, In (k, v) m.
+Proof.
+  intros A n. induction m as [|[k' v'] m IHm]; intros v Hassoc.
+  - discriminate Hassoc.
+  - cbn [assoc] in Hassoc. destruct (Nat.eqb n k') eqn:Hk.
+    + injection Hassoc as Hv. subst v'. exists k'. left. reflexivity.
+    + apply IHm in Hassoc. destruct Hassoc as [k Hin]. exists k. right. exact Hin.
+Qed.
+
+(* D15: ... and has a walking time >= 0 (the same induction with the other half of the test) *)
+Definition rows_nonneg (rows : list fprow) : Prop := Forall (fun r => 0 <= fp_time r) rows.
+Definition table_nonneg (m : list (nat * list fprow)) : Prop := Forall (fun e => rows_nonneg (snd e)) m.
+
+Lemma node_rows_nonneg : forall known l rows, node_rows known l = Some rows -> rows_nonneg rows.
+Proof.
+  intros known. induction l as [|m r IHl]; intros rows Hrows.
+  - cbn [node_rows] in Hrows. injection Hrows as Hrows. subst rows. constructor.
+  - cbn [node_rows] in Hrows.
+    destruct (fm_node m) as [n|] eqn:Hn; [|discriminate Hrows].
+    destruct (node_rows known r) as [rows0|] eqn:Hr; [|discriminate Hrows].
+    injection Hrows as Hrows. subst rows.
+    destruct (memb n known); cbn [andb]; [|apply IHl; reflexivity].
+    destruct (0 <=? fm_time m) eqn:Htime; [|apply IHl; reflexivity].
+    apply Z.leb_le in Htime.
+    constructor; [cbn [fp_time]; exact Htime | apply IHl; reflexivity].
+Qed.
+
+Lemma app_at_nonneg : forall m k rows, table_nonneg m -> rows_nonneg rows -> table_nonneg (app_at m k rows).
+Proof.
+  intros m k rows Hm Hrows. unfold app_at. unfold table_nonneg in *.
+  induction m as [|e m IHm].
+  - constructor.
+  - cbn [map]. inversion Hm as [|e' m' He Hm']; subst e' m'. constructor.
+    + destruct (Nat.eqb (fst e) k).
+      * cbn [snd]. unfold rows_nonneg in *. apply Forall_app. split; assumption.
+      * exact He.
+    + apply IHm. exact Hm'.
+Qed.
+
+Lemma fold_app_at_nonneg : forall t rows m, rows_nonneg rows -> table_nonneg m ->
+  table_nonneg
+    (fold_left (fun m r => app_at m (fp_node r) [{| fp_node := t; fp_time := fp_time r; fp_dist := fp_dist r |}]) rows m).
+Proof.
+  intros t. induction rows as [|r rows IHrows]; intros m Hrows Hm.
+  - cbn [fold_left]. exact Hm.
+  - cbn [fold_left]. inversion Hrows as [|r' rows' Hr Hrows']; subst r' rows'.
+    apply IHrows; [exact Hrows'|].
+    apply app_at_nonneg; [exact Hm|].
+    constructor; [cbn [fp_time]; exact Hr|constructor].
+Qed.
+
+Lemma self_row_nonneg : forall t, rows_nonneg [{| fp_node := t; fp_time := 0; fp_dist := 0 |}].
+Proof. intros t. constructor; [cbn [fp_time]; lia|constructor]. Qed.
+
+Lemma load_node_files_nonneg : forall known files todo fp rfp fp' rfp',
+  table_nonneg fp -> table_nonneg rfp ->
+  load_node_files known todo files fp rfp = NLOk fp' rfp' -> table_nonneg fp' /\ table_nonneg rfp'.
+Proof.
+  intros known files. induction todo as [|t rest IHtodo]; intros fp rfp fp' rfp' Hfp Hrfp Hload.
+  - cbn [load_node_files] in Hload. injection Hload as Hf Hr. subst fp' rfp'. split; assumption.
+  - cbn [load_node_files] in Hload.
+    destruct (files t) as [| |pre|msg] eqn:Hfile.
+    + exact (IHtodo fp rfp fp' rfp' Hfp Hrfp Hload).
+    + exact (IHtodo fp rfp fp' rfp' Hfp Hrfp Hload).
+    + discriminate Hload.
+    + destruct (node_rows known msg) as [rows|] eqn:Hrows; [|discriminate Hload].
+      apply node_rows_nonneg in Hrows.
+      apply (IHtodo _ _ fp' rfp') in Hload.
+      * exact Hload.
+      * apply app_at_nonneg; assumption.
+      * apply app_at_nonneg; [apply fold_app_at_nonneg; assumption|apply self_row_nonneg].
+Qed.
+
+Lemma table_nonneg_assoc : forall m n rows r,
+  table_nonneg m -> assoc n m = Some rows -> In r rows -> 0 <= fp_time r.
+Proof.
+  intros m n rows r Hm Hassoc Hin.
+  apply assoc_in in Hassoc. destruct Hassoc as [k Hk].
+  unfold table_nonneg in Hm. rewrite Forall_forall in Hm.
+  specialize (Hm (k, rows) Hk). cbn [snd] in Hm.
+  unfold rows_nonneg in Hm. rewrite Forall_forall in Hm.
+  exact (Hm r Hin).
+Qed.
+
+Lemma empty_table_nonneg : forall (l : list nat), table_nonneg (map (fun n => (n, [])) l).
+Proof.
+  induction l as [|n l IHl].
+  - constructor.
+  - cbn [map]. constructor; [cbn [snd]; constructor|exact IHl].
 Qed.
 
 Lemma app_at_known : forall known m k rows,
@@ -696,15 +788,6 @@ Proof.
         -- constructor; [cbn [fp_node]; exact Ht|constructor].
 Qed.
 
-Lemma assoc_in : forall (A : Type) n (m : list (nat * A)) v, assoc n m = Some v -> exists k, In (k, v) m.
-Proof.
-  intros A n. induction m as [|[k' v'] m IHm]; intros v Hassoc.
-  - discriminate Hassoc.
-  - cbn [assoc] in Hassoc. destruct (Nat.eqb n k') eqn:Hk.
-    + injection Hassoc as Hv. subst v'. exists k'. left. reflexivity.
-    + apply IHm in Hassoc. destruct Hassoc as [k Hin]. exists k. right. exact Hin.
-Qed.
-
 Lemma table_known_assoc : forall known m n rows r,
   table_known known m -> assoc n m = Some rows -> In r rows -> memb (fp_node r) known = true.
 Proof.
@@ -739,6 +822,31 @@ Proof.
   - apply empty_table_known.
 Qed.
 
+(* D15: on NLOk every row of both tables has a walking time >= 0, whatever the files held *)
+Theorem load_nodes_rows_nonneg : forall nodes files fp rfp, load_nodes nodes files = NLOk fp rfp ->
+  (forall n rows r, assoc n fp = Some rows -> In r rows -> 0 <= fp_time r) /\
+  (forall n rows r, assoc n rfp = Some rows -> In r rows -> 0 <= fp_time r).
+Proof.
+  intros nodes files fp rfp Hload. unfold load_nodes in Hload. cbv zeta in Hload.
+  apply load_node_files_nonneg in Hload.
+  - destruct Hload as [Hfp Hrfp]. split.
+    + intros n rows r Hassoc Hin. exact (table_nonneg_assoc fp n rows r Hfp Hassoc Hin).
+    + intros n rows r Hassoc Hin. exact (table_nonneg_assoc rfp n rows r Hrfp Hassoc Hin).
+  - apply empty_table_nonneg.
+  - apply empty_table_nonneg.
+Qed.
+
+(* a row with a negative walking time is dropped like a row naming an unknown stop; the file is read on *)
+Example ex_negative_walk_skipped :
+  load_nodes [1;2]%nat
+    (fun n => FDecoded [ {| fm_node := Some 1%nat; fm_time := 30; fm_dist := 40 |};
+                         {| fm_node := Some 2%nat; fm_time := -200; fm_dist := 5 |};
+                         {| fm_node := Some 9%nat; fm_time := 10; fm_dist := 5 |};
+                         {| fm_node := Some 2%nat; fm_time := 0; fm_dist := 0 |} ])
+  = NLOk [(1%nat, [ex_row' 1 30 40; ex_row' 2 0 0]); (2%nat, [ex_row' 1 30 40; ex_row' 2 0 0])]
+         [(1%nat, [ex_row' 1 30 40; ex_row' 1 0 0; ex_row' 2 30 40]); (2%nat, [ex_row' 1 0 0; ex_row' 2 0 0; ex_row' 2 0 0])].
+Proof. vm_compute. reflexivity. Qed.
+
 (* ---------------------------------------------------------------------------------------------- *)
 (* B. round trip                                                                                   *)
 
@@ -746,13 +854,16 @@ Definition enc_row (r : fprow) : fp_msg :=
   {| fm_node := Some (fp_node r); fm_time := fp_time r; fm_dist := fp_dist r |}.
 
 Lemma node_rows_encode : forall known rows,
-  (forall r, In r rows -> memb (fp_node r) known = true) -> node_rows known (map enc_row rows) = Some rows.
+  (forall r, In r rows -> memb (fp_node r) known = true) -> (forall r, In r rows -> 0 <= fp_time r) ->
+  node_rows known (map enc_row rows) = Some rows.
 Proof.
-  intros known. induction rows as [|r rows IHrows]; intros Hknown.
+  intros known. induction rows as [|r rows IHrows]; intros Hknown Htime.
   - reflexivity.
   - cbn [map node_rows enc_row fm_node fm_time fm_dist].
-    rewrite IHrows by (intros r' Hin; apply Hknown; right; exact Hin).
+    rewrite IHrows; [|intros r' Hin; apply Hknown; right; exact Hin|intros r' Hin; apply Htime; right; exact Hin].
     rewrite (Hknown r) by (left; reflexivity).
+    assert (Hr : (0 <=? fp_time r) = true) by (apply Z.leb_le; apply Htime; left; reflexivity).
+    rewrite Hr. cbn [andb].
     destruct r as [n w dd]. reflexivity.
 Qed.
 
@@ -791,21 +902,24 @@ Proof. reflexivity. Qed.
 Lemma load_node_files_healthy : forall (nodes : list nat) (fp : nat -> list fprow) todo (F G : nat -> list fprow),
   nodup_nat todo = true ->
   (forall t r, In t todo -> In r (fp t) -> memb (fp_node r) nodes = true) ->
+  (forall t r, In t todo -> In r (fp t) -> 0 <= fp_time r) ->
   load_node_files nodes todo (fun n => FDecoded (map enc_row (fp n)))
                   (map (fun n => (n, F n)) nodes) (map (fun n => (n, G n)) nodes)
   = NLOk (map (fun n => (n, F n ++ (if memb n todo then fp n else []))) nodes)
          (map (fun n => (n, G n ++ derive_rfp todo fp n)) nodes).
 Proof.
-  intros nodes fp. induction todo as [|t rest IHtodo]; intros F G Hnodup Hknown.
+  intros nodes fp. induction todo as [|t rest IHtodo]; intros F G Hnodup Hknown Htime.
   - cbn [load_node_files]. f_equal.
     + apply map_ext. intros n. cbn [memb existsb]. rewrite app_nil_r. reflexivity.
     + apply map_ext. intros n. unfold derive_rfp. cbn [flat_map]. rewrite app_nil_r. reflexivity.
   - cbn [nodup_nat] in Hnodup. apply andb_true_iff in Hnodup. destruct Hnodup as [Hfresh Hnodup].
     apply negb_true_iff in Hfresh.
     cbn [load_node_files].
-    rewrite node_rows_encode by (intros r Hin; apply (Hknown t r); [left; reflexivity|exact Hin]).
+    rewrite node_rows_encode; [|intros r Hin; apply (Hknown t r); [left; reflexivity|exact Hin]
+                              |intros r Hin; apply (Htime t r); [left; reflexivity|exact Hin]].
     cbv zeta. rewrite fold_app_at_map. rewrite !app_at_map.
-    rewrite IHtodo; [|exact Hnodup|intros t' r Hin Hr; apply (Hknown t' r); [right; exact Hin|exact Hr]].
+    rewrite IHtodo; [|exact Hnodup|intros t' r Hin Hr; apply (Hknown t' r); [right; exact Hin|exact Hr]
+                     |intros t' r Hin Hr; apply (Htime t' r); [right; exact Hin|exact Hr]].
     f_equal.
     + apply map_ext. intros n. rewrite memb_cons.
       destruct (Nat.eqb n t) eqn:Hnt.
@@ -817,17 +931,18 @@ Proof.
       * rewrite app_nil_r. rewrite <- !app_assoc. reflexivity.
 Qed.
 
-(* healthy stop files holding the forward lists of a dataset: the loader reproduces the forward lists and
-   derives the reverse lists derive_rfp *)
+(* healthy stop files holding the forward lists of a dataset (rows naming stops of the dataset, walking times >= 0):
+   the loader reproduces the forward lists and derives the reverse lists derive_rfp *)
 Theorem load_nodes_roundtrip : forall (nodes : list nat) (fp : nat -> list fprow),
   nodup_nat nodes = true ->
   (forall n r, In n nodes -> In r (fp n) -> memb (fp_node r) nodes = true) ->
+  (forall n r, In n nodes -> In r (fp n) -> 0 <= fp_time r) ->
   load_nodes nodes (fun n => FDecoded (map (fun r => {| fm_node := Some (fp_node r); fm_time := fp_time r; fm_dist := fp_dist r |}) (fp n)))
   = NLOk (map (fun n => (n, fp n)) nodes) (map (fun n => (n, derive_rfp nodes fp n)) nodes).
 Proof.
-  intros nodes fp Hnodup Hknown. unfold load_nodes. cbv zeta.
+  intros nodes fp Hnodup Hknown Htime. unfold load_nodes. cbv zeta.
   change (fun r => {| fm_node := Some (fp_node r); fm_time := fp_time r; fm_dist := fp_dist r |}) with enc_row.
-  rewrite (load_node_files_healthy nodes fp nodes (fun _ => []) (fun _ => []) Hnodup Hknown).
+  rewrite (load_node_files_healthy nodes fp nodes (fun _ => []) (fun _ => []) Hnodup Hknown Htime).
   cbn [app].
   replace (map (fun n => (n, if memb n nodes then fp n else [])) nodes) with (map (fun n => (n, fp n)) nodes).
   - reflexivity.
@@ -981,6 +1096,7 @@ Print Assumptions data_status_names_first_empty.
 Print Assumptions data_status_no_lines.
 Print Assumptions data_status_first_empty_named.
 Print Assumptions load_nodes_rows_known.
+Print Assumptions load_nodes_rows_nonneg.
 Print Assumptions load_nodes_roundtrip.
 Print Assumptions derive_rfp_transpose.
 Print Assumptions load_line_file_roundtrip.
